@@ -245,7 +245,8 @@ def trigH : Handler := fun args => do
     mergeChecksOwnFunction, isShadowedKnowsWhile, catchKeepsAssignedByVar, endsInIfOptimizesLoops -/
 def factsH : Handler := fun _ =>
   .ok (boolBytes Verif.Gen.JsHoistFacts.mergeChecksOwnFunction ++ boolBytes Verif.Gen.JsHoistFacts.isShadowedKnowsWhile
-    ++ boolBytes Verif.Gen.JsHoistFacts.catchKeepsAssignedByVar ++ boolBytes Verif.Gen.JsHoistFacts.endsInIfOptimizesLoops)
+    ++ boolBytes Verif.Gen.JsHoistFacts.catchKeepsAssignedByVar ++ boolBytes Verif.Gen.JsHoistFacts.endsInIfOptimizesLoops
+    ++ boolBytes Verif.Gen.JsHoistFacts.emptyDeclBodyWritesSemicolon)
 
 def handlers : List (String × Handler) :=
   [("model.c01d.min", minH), ("spec.c01d.run", runH), ("trig.c01d.known", trigH), ("model.c01d.facts", factsH)]
